@@ -981,6 +981,16 @@ func c01Specials(c *Ctx, byName map[string]*c01Family, next func(string) string)
 			cs.g = []c01GRules{{"g", 2, [][]string{{"alice", "admin"}, {"admin", "root"}, {"bob", "root"}}}}
 			cs.reqs = c01AllReqs(r, nil, [][]c01V{c01StrVals("alice", "bob", "admin", "carol"), c01StrVals("data1", "data2"), c01StrVals("read")}, false)
 			c01RunMode(c, cs)
+			// several rows share ONE sub-rule text that mentions policy fields: it has to be
+			// evaluated against each row's own fields
+			cs = c01Build(r, next("eval-shared"), er, nil, c01Pick(r, []string{"ao", "do", "ad"}), 0, 0)
+			shared := c01Bin("&&", c01Eq(c01V_("r_obj"), c01V_("p_obj")), c01Bin("!=", c01V_("r_sub"), c01Str("bob")))
+			cs.p[0].rules = [][]string{{"r.obj == p.obj && r.sub != \"bob\"", "data1", "read"}, {"r.obj == p.obj && r.sub != \"bob\"", "data2", "read"},
+				{"r.obj == p.obj && r.sub != \"bob\"", "data3", "read"}}
+			cs.extra = []c01ParseEnt{{"r_obj == p_obj && r_sub != \"bob\"", shared}}
+			cs.g = []c01GRules{{"g", 2, nil}}
+			cs.reqs = c01AllReqs(r, nil, [][]c01V{c01StrVals("alice", "bob"), c01StrVals("data3", "data2", "data1", "data4"), c01StrVals("read")}, false)
+			c01RunMode(c, cs)
 		}
 		// unknown function: a compile error for every request
 		cs = c01Build(r, next("unknown-fn"), acl, c01And(c01Call("foo", c01V_("r_sub")), c01Eq(c01V_("r_obj"), c01V_("p_obj"))), "ao", 2, 0)
